@@ -111,6 +111,7 @@ fn main() {
     let start = Instant::now();
     let targets: Vec<usize> = (0..n).filter(|i| *i != BYZ).collect();
     let mut sent = [0u64; 6];
+    let mut fresh_block: u64 = 0;
     let mut next_sample = 1u64;
     let mut samples: Vec<Vec<u64>> = Vec::new();
     let mut shredder = RegularShredder::default();
@@ -169,8 +170,8 @@ fn main() {
                         _ => { let mut d = 0u64.to_le_bytes().to_vec(); if rng.chance(1, 2) { d.extend(rng.bytes(8)); } d }
                     };
                     let slice_index = match rng.below(4) { 0 => 0, 1 => 1, 2 => rng.below(5) as usize, _ => 1023 };
-                    let si = si(slice_index);
-                    let slice = Slice { slot, slice_index: si, is_last: rng.chance(1, 2), parent: if slice_index == 0 || rng.chance(1, 4) { parent } else { None }, data };
+                    let si0 = si(slice_index);
+                    let slice = Slice { slot, slice_index: si0, is_last: rng.chance(1, 2), parent: if slice_index == 0 || rng.chance(1, 4) { parent } else { None }, data };
                     if let Ok(shreds) = shredder.shred(&slice, &byz_sk) {
                         // send >= 32 shreds so that the slice reconstructs at the victim
                         let k = rng.range(20, 64) as usize;
@@ -179,6 +180,37 @@ fn main() {
                             let b = if rng.chance(1, 30) { mutate(&mut rng, b) } else { b };
                             let _ = sock.send_to(&b, info.disseminator_address);
                             sent[1] += 1;
+                        }
+                    }
+                    // a complete, validly signed multi-slice block whose *later* slice switches the parent (optimistic
+                    // handover) to a slot that is not earlier / to the same parent / twice: it reconstructs at the victim
+                    if rng.chance(1, 6) {
+                        // a slot of a later window led by the Byzantine validator that nothing was sent for yet
+                        fresh_block += 1;
+                        let w = cur_slot / 4 + 1;
+                        let bw = w - w % n as u64 + n as u64 * (1 + fresh_block % 200) + BYZ as u64;
+                        let slot = Slot::new(bw * 4 + fresh_block / 200 % 4);
+                        let first_parent: BlockId = (Slot::new(slot.inner().saturating_sub(1)), rand_hash(&mut rng));
+                        let nsl = 2 + rng.below(2) as usize;
+                        let variant = rng.below(4);
+                        for k in 0..nsl {
+                            let par: Option<BlockId> = if k == 0 { Some(first_parent.clone()) } else {
+                                match (variant, k) {
+                                    (0, 1) => Some((Slot::new(slot.inner() + rng.below(3)), rand_hash(&mut rng))), // not in an earlier slot
+                                    (1, 1) => Some(first_parent.clone()),                                          // switch to the current parent
+                                    (2, _) => Some((Slot::new(slot.inner().saturating_sub(1 + k as u64)), rand_hash(&mut rng))), // a switch in every slice
+                                    (3, 1) => Some((Slot::new(slot.inner().saturating_sub(2)), rand_hash(&mut rng))), // one legal switch
+                                    _ => None,
+                                }
+                            };
+                            let sl = Slice { slot, slice_index: si(k), is_last: k + 1 == nsl, parent: par, data: 0u64.to_le_bytes().to_vec() };
+                            if let Ok(shreds) = shredder.shred(&sl, &byz_sk) {
+                                for sh in shreds.iter() {
+                                    let b = wincode::serialize(sh.as_shred()).expect("ser shred");
+                                    let _ = sock.send_to(&b, info.disseminator_address);
+                                    sent[1] += 1;
+                                }
+                            }
                         }
                     }
                     if rng.chance(1, 4) { let g = { let n_ = rng.range(0, 1400) as usize; rng.bytes(n_) }; let _ = sock.send_to(&g, info.disseminator_address); }
